@@ -307,6 +307,7 @@ def run_asyncio(case):
                         await settle()
                 elif op == "fail_write_at":
                     tr.fail_write_at = tr.nwrites + step[1]
+                    tr.fail_write_exc = step[2] if len(step) > 2 else None
                 elif op == "trigger":
                     trace.ev("client", "trigger", name=step[1])
                     apps.trigger(step[1])
